@@ -182,6 +182,12 @@ class PosePath3D(object):
                 self._poses_se3.append(self._poses_se3[j].dot(rel_poses[i]))
         else:
             self._poses_se3 = [np.dot(t, p) for p in self.poses_se3]
+            scale = lie.sim3_scale(t)
+            if not np.isclose(scale, 1.0):
+                # Sim(3): the scale applies to the positions only,
+                # the orientations have to stay valid rotations.
+                for p in self._poses_se3:
+                    p[:3, :3] /= scale
         self._positions_xyz, self._orientations_quat_wxyz \
             = se3_poses_to_xyz_quat_wxyz(self.poses_se3)
 
